@@ -14,7 +14,7 @@ from tlcrun import run_tlc, stats_of, require_clean
 from vcommon import Report, digest, die, run_dir, seed
 
 PROP = "C10"
-NUMS = [1, 2, 3, 5, 0.5, 1.5, 0.25, 12.5, 0.125, 7, 40, 250, 0.02, 1.234, 99.95, 0.3, 1e3, 123.4]
+NUMS = [1, 2, 3, 5, 0.5, 1.5, 0.25, 12.5, 0.125, 7, 40, 250, 0.02, 1.234, 99.95, 0.3, 1e3, 123.4, 2e5, 1e6, 3e5, 1e5, 0.0002]
 WILD = [1 / 3, 2.0 ** 0.5, 3.14159265, 1234.567, 0.000123456, 7.77777e4, 65432.1, 0.99996, 19.99949]
 
 
@@ -87,6 +87,20 @@ def gen_case(rng, i):
             lst.insert(rng.randint(0, len(lst)), opp)       # partner in any position, before or after
             if rng.random() < 0.3:
                 lst.insert(rng.randint(0, len(lst)), rrow(rng, inv + (outv if lst is g else []), wild, pt))
+        elif lst and rng.random() < 0.35:
+            # a LATER row that negates an earlier one on a strict SUBSET of its variables, with the bound
+            # negated or equal: not an opposite pair either
+            cand = [j for j, (co, c) in enumerate(lst) if len(co) >= 2]
+            if cand:
+                j = rng.choice(cand)
+                co, c = lst[j]
+                drop = rng.choice(sorted(co))
+                sub = {v: -a for v, a in co.items() if v != drop}
+                val = lhs_at(sub, pt)
+                for c2 in (-c, c):
+                    if val <= c2:
+                        lst.insert(rng.randint(j + 1, len(lst)), (sub, c2))
+                        break
         elif lst and rng.random() < 0.6:
             # a later row that negates an earlier one on the shared variables but mentions one more
             # variable, with the same bound: NOT an opposite pair, must not be folded
